@@ -43,6 +43,7 @@ class Horizon(Exception):
 
 
 NEW, READY, DONE = 0, 1, 2
+_ADDR = re.compile(r"0x[0-9a-fA-F]{6,}")  # object addresses differ between replays
 
 
 class VThread:
@@ -191,12 +192,12 @@ class World:
         except BaseException as e:  # noqa: BLE001
             t.exc = e
             if not self.teardown:
-                self.log("thread-died", t.name, type(e).__name__, str(e)[:200])
+                self.log("thread-died", t.name, type(e).__name__, _ADDR.sub("0x?", str(e)[:200]))
                 if not (isinstance(e, (KeyboardInterrupt, SystemExit)) and not t.is_main):
                     import traceback
 
                     self.stderr.write(
-                        f"[vthread {t.name}] " + "".join(traceback.format_exception(e))
+                        _ADDR.sub("0x?", f"[vthread {t.name}] " + "".join(traceback.format_exception(e)))
                     )
         finally:
             t.state = DONE
